@@ -254,6 +254,13 @@ theorem stat_on_lyc (s : State) (k : Nat) (h : pos s = sched (4 * k))
 theorem stat_batch (n : Nat) (s : State) (k : Nat) (h : pos s = sched (4 * k)) :
     hasStat (run n s).2 = anyTick (statEv (enOf s) s.lyc) k n := run_stat n s k h
 
+/-- what the correspondence driver evaluates (`evScan`: one pass over the ticks of a batch with the
+schedule computed once per tick) is exactly the pair of batch events above -/
+theorem batch_events_scan (e : Enables) (lyc k n : Nat) :
+    evScan e lyc (sched (4 * k)) k n false false =
+      (sched (4 * (k + n)), anyTick vblankEv k n, anyTick (statEv e lyc) k n) := by
+  rw [evScan_eq]; simp only [Bool.false_or]
+
 /-- runs change neither LYC nor the enables, and return no flag other than VBlank / STAT -/
 theorem run_keeps_regs (n : Nat) (s : State) :
     (run n s).1.lyc = s.lyc ∧ enOf (run n s).1 = enOf s ∧ (run n s).2 < 4 :=
